@@ -5,7 +5,7 @@
 # Mutations confirmed caught (scratch worktree, VERIF_REPO): see the list at the end of this file.
 import struct
 
-READY_C07 = False
+READY_C07 = True
 READY_C08 = False
 COQ_PROPS_C07 = ['Properties_C07_kll']
 COQ_PROPS_C08 = ['Properties_C08_kll']
